@@ -321,9 +321,10 @@ theorem groth_core (hG : ValidGroup G) (mode : Mode) {P : GrothPub} (hP : PubOk 
       have := (mod_range hG (d.getD i 0 + tp.getD i 0)).2
       simp only [Bool.and_eq_true, Bool.not_eq_true', decide_eq_false_iff_not, decide_eq_true_eq]
       exact ⟨by omega, this⟩
-    simp only [grothChecks1, testMembership, hP.st.grp, mpzPowm_q_one hG _ _ v1 hEd1,
+    simp only [grothChecks1, testMembership_val hG hP _ st.lcg _ _ _ vc,
+      testMembership_val hG hP _ st.lcg _ _ _ vcd, hP.st.grp, mpzPowm_q_one hG _ _ v1 hEd1,
       mpzPowm_q_one hG _ _ v2 hEd2, bind, Except.bind, pure, Except.pure]
-    simp only [cpos, vc.2.1, cdpos, vcd.2.1, decide_true, Bool.and_self, Bool.not_true,
+    simp only [Bool.and_self, Bool.not_true,
       Bool.false_eq_true, if_false, ne_eq, not_true_eq_false, or_self, hall]
     rw [if_neg (by omega)]
   · -- the commitment handed to the SKC
